@@ -41,6 +41,8 @@ KEYS = ["A", "S", "S.X", "S.Y", "T.X", "L", "L.0", "L.1", "L.2", "S.X.Z"]
 STORED = U.SCALARS + [[], [1], [0, "a"], {}, {"X": 1}, "{B}", "x{B}y", "{S.Y}", "{T.X}{B}", "{Q}", ["{B}", 1], {"K": "{B}"}]
 DEFAULTS = [
     ("none", None), ("const", 0), ("const", None), ("const", ""), ("const", [1]), ("const", "dflt"), ("const", []), ("const", {}), ("const", [[], {"k": []}]),
+    # equal-looking scalar constants of different types (0 / 0.0 / False, 1 / 1.0 / True, -0.0): each option yields ITS constant
+    ("const", 0.0), ("const", False), ("const", 1), ("const", 1.0), ("const", True), ("const", -0.0),
     ("tmpl", "{B}"), ("tmpl", "t{S.Y}"), ("factory", False), ("factory", {"X": 2}),
     ("spec", {"k": "opt", "key": "B", "dk": "spec", "dv": {"k": "opt", "key": "C", "dk": "const", "dv": "chain-end"}}),
     ("spec", {"k": "ds", "id": "1"}),
